@@ -14,7 +14,14 @@ Definition fu := (float * string)%type.
 Record row := { r_time : fu; r_pos : list fu; r_spd : list fu; r_acc : list fu; r_tq : list fu; r_dtq : list fu; r_ltq : list fu; r_pwm : float; r_cur : option fu }.
 Inductive expect := EHist (rows : list row) (locked : bool) | EErr (e : exn).
 
-Record scase := { k_chain : @chain FX; k_load : @loadexpr FX; k_pos0 : fqty; k_spd0 : fqty; k_ops : list (@sop FX); k_expect : expect }.
+Record scase := { k_chain : @chain FX; k_load : @loadexpr FX; k_pos0 : fqty; k_spd0 : fqty; k_ops : list (@sop FX);
+                  k_more : list (@loadexpr FX * list (@sop FX));      (* further segments after the user re-declared the external torque *)
+                  k_expect : expect }.
+Fixpoint exec_segs (c : @chain FX) (segs : list (@loadexpr FX * list (@sop FX))) (st : @sys FX) : res (@sys FX) :=
+  match segs with
+  | [] => Ok st
+  | (l, ops) :: segs' => st1 <- exec c (eval_load l) ops st ;; exec_segs c segs' st1
+  end.
 
 Definition fu_eqb (q : fqty) (x : fu) : bool := fbits_eq (qv q) (fst x) && String.eqb (qu q) (snd x).
 Fixpoint fus_eqb (l : list fqty) (x : list fu) : bool :=
@@ -46,7 +53,7 @@ Definition exn_code (e : exn) : N :=
   match e with TypeError => 1 | ValueError => 2 | KeyError => 3 | ZeroDivisionError => 4 | NameError => 5 | IndexError => 6
              | AttributeError => 7 | OracleMiss => 8 | OutOfFuel => 9 end.
 Definition case_code (k : scase) : N * N :=
-  let r := exec (k_chain k) (eval_load (k_load k)) (k_ops k) (initial (k_pos0 k) (k_spd0 k)) in
+  let r := exec_segs (k_chain k) ((k_load k, k_ops k) :: k_more k) (initial (k_pos0 k) (k_spd0 k)) in
   match r, k_expect k with
   | Ok st, EHist rows locked =>
       let (c, i) := rows_code (rev (y_hist st)) rows 0 in
